@@ -474,6 +474,13 @@ func (pa *provAnalysis) call(fn *ssa.Function, ci ssa.CallInstruction, get func(
 			res |= rr & (bit(rootFresh) | bit(rootGlob) | bit(rootUnknown))
 		}
 	}
+	if gk := E.ghostKeysOfCall(c); len(gk) > 0 {
+		gr := get(c.Value) &^ bit(rootGlob) // ghost state is not program memory: never a global write
+		if gr&^bit(rootFresh) == 0 {
+			gr = bit(rootUnknown)
+		}
+		write(gr, gk, 0, c.Pos(), "ghost state of "+c.Method.Name())
+	}
 	if mc, ok := c.Value.(*ssa.MakeClosure); ok {
 		apply(mc.Fn.(*ssa.Function), mc.Bindings)
 	} else {
